@@ -370,6 +370,24 @@ class SymEval:
         elif isinstance(st, ast.AugAssign):
             cur = self.eval(self._as_load(st.target), env)
             v = self.binop(st.op, cur, self.eval(st.value, env))
+            if isinstance(st.target, ast.Name) and isinstance(cur, SArray) and \
+                    isinstance(v, SArray) and v.shape == cur.shape:
+                # numpy semantics: `a op= b` on an array updates the object in place, so every
+                # other name bound to the same array sees the new values
+                cur.entries.clear()
+                cur.entries.update(v.entries)
+                cur.default = v.default
+                cur.sample = cur.sample or v.sample
+                if hasattr(cur, 'parr'):
+                    pa, row = cur.parr
+                    for i in cur.indices():
+                        if i in cur.entries:
+                            self.store(pa, (row,) + i, cur.entries[i], st)
+                return
+            if isinstance(st.target, ast.Name) and isinstance(cur, Rec) and isinstance(v, SArray):
+                for (i,), c in zip(sorted(v.entries), list(cur.cols)):
+                    cur.cols[c] = v.entries[(i,)]
+                return
             self.assign(st.target, v, env, st)
         elif isinstance(st, ast.Return):
             raise _Return(self.eval(st.value, env) if st.value else None)
